@@ -88,6 +88,9 @@ class TAnyVocabOfDim(Type):
     def __str__(self):
         return f"{self.name}<{self.dimensions}>"
 
+    def __hash__(self):
+        return super(TAnyVocabOfDim, self).__hash__() ^ hash(self.dimensions)
+
     def __eq__(self, other):
         if not isinstance(other, Type):
             return NotImplemented
